@@ -11,7 +11,7 @@ def run(ctx):
                 "B2: random (w,m) with m<=31, w<=m+60, every next() validated incl. internal state. "
                 "non-trivial = input for which the real iterator emits at least one run")
     ctx.trusted += ["harness enumeration order = TLC's index", "TLC, Json/IOUtils community modules"]
-    L = 9 if ctx.thorough() else 7
+    L = 8 if ctx.thorough() else 7     # (L = 9 with two 50 MB tables per run exhausts TLC's heap when the machine is shared)
     for (w, m) in QUICK:
         if not mc.mc_table(ctx, w, m, L):
             return
@@ -19,7 +19,8 @@ def run(ctx):
         for (w, m) in [(4, 1), (6, 2), (8, 3), (5, 5)]:
             if not mc.mc_table(ctx, w, m, 12, alpha="014"):
                 return
-        mc.mc_table(ctx, 4, 2, 10, tables=False)
+        mc.mc_table(ctx, 4, 2, 9, tables=False)
+        mc.mc_table(ctx, 3, 3, 9, tables=False)
     else:
         for (w, m) in [(6, 2), (8, 3)]:
             if not mc.mc_table(ctx, w, m, 10, alpha="014"):
